@@ -1,4 +1,5 @@
 import CalicoVerif.Proofs.C02Routes
+import CalicoVerif.Proofs.C03Dirty
 /-!
 C02 — Felix's output stream never references something the dataplane lacks.
 
@@ -85,6 +86,22 @@ example : ValidHist {} routeRemoveHist ∧ RoutesOKAtFlushes {} {} routeRemoveHi
 
 example : (execHist {} routeRemoveHist).map (·.2) = some [Msg.vtepUpdate "n2" "b", Msg.routeUpdate "r" ⟨"a", some "n2"⟩,
     Msg.routeRemove "r", Msg.vtepRemove "n2"] := by decide
+
+/-- Closure hypothesis discharged on the resolver side, for histories with ARBITRARY sync-status
+sequences (status regressions after in-sync included; `Event.status` is just another event of the
+history): after any history followed by a flush, the last `OnEndpointTierUpdate` the PolicyResolver
+has handed to the sequencer for an endpoint lists only policies that currently match that endpoint.
+So when the ActiveRulesCalculator declares a policy inactive (its last match stopped) no endpoint
+update presented to the sequencer references it: the endpoint → policy part of `ClosedAtFlushes`
+holds at every flush of the real wiring (resolver flushed before the sequencer).  What makes this
+true under status regressions is the one-way latch of `OnDatamodelStatus` (model: `.status` never
+resets `inSync`); with `InitialSyncCompleted = (status == InSync)` the real code violates it
+(seeded change C02-2, caught by the graph-mode correspondence and oracle `graph-dangling-*`). -/
+theorem status_latch_refs_live (K : PolicyKey → Prop) (hK : C03.KeyU K) (hist : List C03.RStep) (hin : C03.HistIn K hist)
+    (r : C03.Resolver) (L : C03.Last) (hr : C03.runL {} (fun _ => none) (hist ++ [.flush]) = some (r, L))
+    (e : EpKey) (u : EpUpd) (hu : L e = some (some u)) :
+    ∀ t ∈ u.tiers, ∀ kv ∈ t.policies, (kv.key, e) ∈ r.matched :=
+  C03.last_update_refs_live hK hist hin hr e u hu
 
 /-! ### the route → VTEP part of (i) is FALSE of the current code -/
 
